@@ -39,6 +39,7 @@ type xcase struct {
 	backend      string // peer peerperm os osalloc req reqalloc
 	regular      bool
 	ro           bool // read APIs: the file is opened read-only (Client.Open), which the request server serves through FileReader
+	rfc          int  // readfromc: the concurrency ARGUMENT - 0: conc itself; 1: 0; 2: -1; 3: conc+7 (documented: below one or above the client's maximum means the maximum, which is conc)
 }
 
 func planStr(m map[uint64]uint32) string {
@@ -60,7 +61,7 @@ func planStr(m map[uint64]uint32) string {
 func (x *xcase) kv() []string {
 	return []string{kvs("api", x.api), kvi("p", x.p), kvi("conc", x.conc), kvb("cr", x.cr), kvb("cw", x.cw), kvb("fstat", x.fst),
 		kvi("flen", x.flen), kvi("off", x.off), kvi("len", x.n), kvi("maxtx", x.maxtx), kvs("rfail", planStr(x.rfail)), kvs("wfail", planStr(x.wfail)),
-		kvs("src", x.src), kvb("regular", x.regular), kvs("be", x.backend), kvb("ro", x.ro)}
+		kvs("src", x.src), kvb("regular", x.regular), kvs("be", x.backend), kvb("ro", x.ro), kvi("rfc", x.rfc)}
 }
 
 type sizedReader struct{ r *bytes.Reader }
@@ -212,7 +213,7 @@ func runX(x *xcase, seed int64) (*xresult, error) {
 			var err error
 			if x.api == "readfromc" {
 				cr := &countingReader{r: src}
-				n, err = f.ReadFromWithConcurrency(cr, x.conc)
+				n, err = f.ReadFromWithConcurrency(cr, []int{x.conc, 0, -1, x.conc + 7}[x.rfc])
 				res.srcN = cr.n
 			} else if x.src == "opaque" {
 				cr := &countingReader{r: src}
